@@ -171,6 +171,11 @@ class P:
         name = self.eat()
         if name[0] != "id":
             raise Unsupported(f"pattern {name}")
+        if name[1] == "Wrapping" and self.at("("):
+            self.eat()
+            inner = self.pat()
+            self.eat(")")
+            return inner
         return ("pid", name[1])
 
     # ---- expressions ------------------------------------------------------------------------
@@ -312,6 +317,29 @@ class P:
             return ("array", xs)
         if self.at("{"):
             return ("block", self.block())
+        if self.at("|") or self.at("||") or self.at("move"):
+            if self.at("move"):
+                self.eat()
+            pats = []
+            if self.at("||"):
+                self.eat()
+            else:
+                self.eat("|")
+                while not self.at("|"):
+                    pats.append(self.pat())
+                    if self.at(":"):
+                        self.eat()
+                        self.ty()
+                    if self.at(","):
+                        self.eat()
+                self.eat("|")
+            body = self.expr()
+            for op in ("=", "^=", "&=", "|=", "+=", "-=", "*=", "<<=", ">>="):
+                if self.at(op):
+                    self.eat()
+                    body = ("block", [("assign", op, body, self.expr())])
+                    break
+            return ("closure", pats, body)
         if self.at("if"):
             return self.if_()
         if self.at("match"):
@@ -340,6 +368,7 @@ class P:
                     toks.append(tk)
                 return ("macro", v[:-1], toks)
             path = [v]
+            targs = []
             while self.at("::"):
                 self.eat()
                 if self.at("<"):
@@ -348,11 +377,24 @@ class P:
                     while d:
                         tk = self.eat()[1]
                         d += (tk == "<") - (tk == ">")
+                        if d:
+                            targs.append(tk)
                     continue
                 path.append(self.eat()[1])
+            if path[-1] == "size_of" and targs:
+                return ("sizeof", targs[0])
             return ("path", path)
-        if self.at("<"):  # <T as Trait>::f
-            raise Unsupported("qualified path")
+        if self.at("<"):  # <T>::f
+            self.eat()
+            t = self.ty()
+            if not self.at(">"):
+                raise Unsupported("qualified path <T as Trait>")
+            self.eat(">")
+            path = [t[1] if t[0] == "name" else "?"]
+            while self.at("::"):
+                self.eat()
+                path.append(self.eat()[1])
+            return ("path", path)
         raise Unsupported(f"expression starts with {v!r}")
 
     def if_(self):
@@ -516,6 +558,31 @@ def expand_macros(src):
         am = re.match(r"\s*\(\s*(.*?)\)\s*=>\s*\{", body, re.S)
         if not am:
             continue
+        rep = re.fullmatch(r"\$\((.*)\)\s*,\s*\+", am.group(1).strip(), re.S)
+        if rep:
+            # `$( inner ),+` : every comma-separated group of the invocation instantiates the `$( … )+` part of the template
+            bstart = am.end() - 1
+            bend = match_brace(body, bstart)
+            tm = re.fullmatch(r"\s*\$\((.*)\)\s*\+\s*", body[bstart + 1:bend - 1], re.S)
+            if not tm or "fn " not in tm.group(1):
+                continue
+            inner_pat = rep.group(1).strip()
+            rx = re.escape(inner_pat)
+            rx = re.sub(r"\\\$(\w+)\\?:\w+", lambda mm: f"(?P<{mm.group(1)}>[^,()]+?)", rx)
+            rx = re.sub(r"(?:\\\s|\\ |\s)+", r"\\s*", rx)
+            for inv in re.finditer(r"(?<![\w!])" + name + r"!\s*\(", src):
+                if src[max(0, inv.start() - 13):inv.start()].strip().endswith("macro_rules"):
+                    continue
+                close = match_paren(src, inv.end() - 1)
+                for grp in split_top(src[inv.end():close - 1]):
+                    gm = re.fullmatch(r"\s*" + rx + r"\s*", grp, re.S)
+                    if not gm:
+                        continue
+                    t = tm.group(1)
+                    for k_, v_ in sorted(gm.groupdict().items(), key=lambda x: -len(x[0])):
+                        t = re.sub(r"\$" + k_ + r"\b", v_.strip(), t)
+                    out += "\n" + t
+            continue
         params = re.findall(r"\$(\w+)\s*:\s*\w+", am.group(1))
         bstart = am.end() - 1
         bend = match_brace(body, bstart)
@@ -586,9 +653,10 @@ def split_top(s):
     return out
 
 
-FN_RE = re.compile(r"((?:#\[[^\]]*\]\s*)*)(?:pub(?:\([a-z:]+\))?\s+)?(?:const\s+)?(?:unsafe\s+)?fn\s+(\w+)\s*(?:<[^>]*>)?\s*\(")
+FN_RE = re.compile(r"((?:#\[[^\]]*\]\s*)*)(?:pub(?:\([a-z:]+\))?\s+)?(?:const\s+)?(?:unsafe\s+)?fn\s+(\w+)\s*(<[^>]*>)?\s*\(")
 
 
+TRAIT_RE = re.compile(r"\btrait\s+([A-Za-z_]\w*)\s*(?:<[^{;]*?>)?\s*(?::[^{;]*)?(?:where[^{;]*)?\{")
 IMPL_RE = re.compile(r"\bimpl\b\s*(?:<[^{;]*?>\s*)?(?:(?:[\w:]+(?:<[^{;]*?>)?)\s+for\s+)?([A-Za-z_]\w*)\s*(?:<[^{;]*?>)?\s*(?:where[^{;]*)?\{")
 
 
@@ -602,10 +670,21 @@ def impl_blocks(src):
             continue
         tm = re.search(r"([\w:]+)(?:<[^{;]*?>)?\s+for\s+" + re.escape(m.group(1)), m.group(0))
         out.append((m.start(), end, m.group(1), tm.group(1).split("::")[-1] if tm else None))
+    for m in TRAIT_RE.finditer(src):
+        try:
+            end = match_brace(src, m.end() - 1)
+        except Unsupported:
+            continue
+        out.append((m.start(), end, m.group(1), "trait"))
+        TRAITS.add(m.group(1))
     return out
 
 
+TRAITS = set()
+
+
 STRUCTS = {}
+MACROS = {}
 BLOCK_SIZES = {}
 ASSOC_TYPES = {}
 
@@ -638,6 +717,27 @@ def find_functions(path, cfg=()):
             STRUCTS.setdefault(m.group(1), fields)
         except Unsupported:
             pass
+    for m in re.finditer(r"((?:#\[[^\]]*\]\s*)*)macro_rules!\s*(\w+)\s*[\{\(]", src):
+        attrs = re.findall(r"#\[([^\]]*)\]", m.group(1))
+        if not cfg_active(attrs, cfg):
+            continue
+        try:
+            end = (match_brace if src[m.end() - 1] == "{" else match_paren)(src, m.end() - 1)
+            body = src[m.end():end - 1]
+            am = re.match(r"\s*\(\s*(.*?)\)\s*=>\s*\{", body, re.S)
+            if not am:
+                continue
+            bstart = am.end() - 1
+            bend = match_brace(body, bstart)
+            if body[bend:].strip().strip(";").strip():
+                continue
+            params = re.findall(r"\$(\w+)\s*:\s*(\w+)", am.group(1))
+            if "fn " in body[bstart:bend] and "impl" not in body[bstart:bend] and len(params) == 4 and False:
+                continue
+            MACROS.setdefault((path, m.group(2)), (params, lex(body[bstart + 1:bend - 1])[:-1]))
+            MACROS.setdefault(m.group(2), (params, lex(body[bstart + 1:bend - 1])[:-1]))
+        except Unsupported:
+            pass
     for m in FN_RE.finditer(src):
         name = m.group(2)
         attrs = re.findall(r"#\[([^\]]*)\]", m.group(1))
@@ -651,10 +751,22 @@ def find_functions(path, cfg=()):
             pend = match_paren(src, m.end() - 1)
             sig = src[m.end():pend - 1]
             rest = src[pend:]
-            rm = re.match(r"\s*(?:->\s*([^{;]+?))?\s*(?:where[^{]*)?\{", rest, re.S)
-            if not rm:
+            # return type: up to the first `{` at bracket depth 0 (a `;` at depth 0 first means a declaration without body)
+            d_, q = 0, 0
+            while q < len(rest) and not (rest[q] in "{;" and d_ == 0):
+                d_ += rest[q] in "(["
+                d_ -= rest[q] in ")]"
+                q += 1
+            if q >= len(rest) or rest[q] != "{":
                 continue
-            bstart = pend + rm.end() - 1
+            head = re.sub(r"\bwhere\b.*$", "", rest[:q], flags=re.S).strip()
+            rtxt = head[2:].strip() if head.startswith("->") else None
+
+            class _RM:
+                pass
+            rm = _RM()
+            rm.group = lambda i, rtxt=rtxt: rtxt
+            bstart = pend + q
             bend = match_brace(src, bstart)
             params = []
             for p in split_top(sig):
@@ -673,6 +785,7 @@ def find_functions(path, cfg=()):
             body = P(lex(src[bstart:bend])).block()
             fn = Fn(name, params, ret, body, attrs, src[m.start():bend])
             fn.owner = owner[1] if owner else None
+            fn.cgen = re.findall(r"const\s+(\w+)\s*:", m.group(3) or "")
             if owner:
                 fns.setdefault(f"{owner[1]}::{name}", fn)
             if name not in fns:
@@ -698,9 +811,17 @@ def find_functions(path, cfg=()):
             depth -= src[k] in ")]}"
             k += 1
         try:
-            consts[m.group(1)] = (P(lex(src[m.end():e])).ty(), P(lex(src[j:k])).expr())
+            val = (P(lex(src[m.end():e])).ty(), P(lex(src[j:k])).expr())
         except Unsupported:
-            pass
+            continue
+        owner = None
+        for (a, b, ty, tr) in impls:
+            if a <= m.start() < b and (owner is None or a > owner[0]):
+                owner = (a, ty)
+        if owner:
+            consts.setdefault(f"{owner[1]}::{m.group(1)}", val)
+        else:
+            consts[m.group(1)] = val
     aliases = {}
     for m in re.finditer(r"\btype\s+(\w+)\s*=\s*", src):
         depth, k = 0, m.end()
@@ -783,6 +904,7 @@ class InOutV:
 
     def __init__(self, inp, out):
         self.inp, self.out = inp, out
+        self.out_slot = Slot(out)
 
 
 class Table:
@@ -793,6 +915,10 @@ class Table:
 
 
 class Break(Exception):
+    pass
+
+
+class AssertFail(Unsupported):
     pass
 
 
@@ -813,6 +939,10 @@ class Exec:
         self.outs_only = set(outs_only)
         self.generics = {}
         self.self_ty = None
+        self.const_cache = {}
+        self.aux = {}
+        self.lean_name = "fn"
+        self.field_consts = {}
         self.tables = tables or {}
         self.crate = crate
         self.lines = []
@@ -841,7 +971,9 @@ class Exec:
     # ---- types ------------------------------------------------------------------------------
     def resolve(self, t):
         for _ in range(20):
-            if t[0] == "name" and t[1] in self.generics:
+            if t[0] == "name" and t[1] == "Wrapping" and t[2]:
+                t = ("name", t[2][0], [])
+            elif t[0] == "name" and t[1] in self.generics:
                 g = self.generics[t[1]]
                 t = ("name", g, []) if isinstance(g, str) else g
             elif t[0] == "name" and t[1] in self.aliases and t[1] not in STRUCTS:
@@ -897,6 +1029,10 @@ class Exec:
         for fname, fty in STRUCTS[ty]:
             rt = self.resolve(fty)
             if rt[0] == "name" and rt[1] in ("PhantomData", "?"):
+                continue
+            if fname in self.field_consts:
+                w = WIDTH.get(rt[1], 1) if rt[0] == "name" else 1
+                fields[fname] = Slot(BV(w, const=int(self.field_consts[fname])))
                 continue
             fields[fname] = Slot(self.param_value(f"{name}_{fname}", fty, inputs))
         return Struct(ty, fields)
@@ -967,6 +1103,8 @@ class Exec:
                 return base.slots[int(e[2])].v
             if isinstance(base, Struct) and e[2] in base.fields:
                 return base.fields[e[2]].v
+            if isinstance(base, BV) and e[2] == "0":
+                return base  # Wrapping(x).0
             raise Unsupported(f"field .{e[2]}")
         if k == "mcall":
             return self.mcall(e, env, want)
@@ -1001,10 +1139,31 @@ class Exec:
             raise Unsupported("loop does not terminate under constant folding")
         if k == "macro":
             if e[1] in ("debug_assert", "debug_assert_eq", "debug_assert_ne", "assert", "assert_eq", "assert_ne"):
+                if e[1] == "assert_eq":
+                    try:
+                        toks = e[2] + [("eof", "")]
+                        pp = P(toks)
+                        a = pp.expr()
+                        pp.eat(",")
+                        b = pp.expr()
+                        va, vb = self.const_of(self.eval(a, env)), self.const_of(self.eval(b, env))
+                    except Unsupported:
+                        return None
+                    if va != vb:
+                        raise AssertFail(f"assert_eq!({va}, {vb})")
                 return None
             if e[1] == "unreachable":
                 raise Unsupported("unreachable! reached")
+            if e[1] in MACROS:
+                return self.expand_macro(e[1], e[2], env, want)
             raise Unsupported(f"macro {e[1]}!")
+        if k == "closure":
+            return ("closure", e[1], e[2], env)
+        if k == "sizeof":
+            t = self.resolve(("name", e[1], []))
+            if t[0] == "name" and t[1] in WIDTH:
+                return BV(64, const=WIDTH[t[1]] // 8)
+            raise Unsupported(f"size_of::<{e[1]}>")
         if k == "range":
             lo = self.const_of(self.eval(e[1], env)) if e[1] is not None else None
             hi = self.const_of(self.eval(e[2], env)) if e[2] is not None else None
@@ -1012,6 +1171,50 @@ class Exec:
                 hi += 1
             return ("range", lo, hi)
         raise Unsupported(f"expression kind {k}")
+
+    def expand_macro(self, name, toks, env, want):
+        params, tmpl = MACROS[name]
+        # split the invocation tokens at top-level commas
+        args, cur, d = [], [], 0
+        for tk in toks:
+            if tk[0] == "op" and tk[1] in "([{":
+                d += 1
+            elif tk[0] == "op" and tk[1] in ")]}":
+                d -= 1
+            if tk == ("op", ",") and d == 0:
+                args.append(cur)
+                cur = []
+            else:
+                cur.append(tk)
+        if cur:
+            args.append(cur)
+        if len(args) != len(params):
+            raise Unsupported(f"macro {name}!: {len(args)} arguments for {len(params)} parameters")
+        sub = {}
+        for (pn, kind), a in zip(params, args):
+            sub[pn] = ([("op", "(")] + a + [("op", ")")]) if kind == "expr" else a
+        out, i = [], 0
+        while i < len(tmpl):
+            if tmpl[i] == ("op", "$") and i + 1 < len(tmpl) and tmpl[i + 1][1] in sub:
+                out += sub[tmpl[i + 1][1]]
+                i += 2
+            else:
+                out.append(tmpl[i])
+                i += 1
+        block = P([("op", "{")] + out + [("op", "}"), ("eof", "")]).block()
+        # `let $i = 0; $body;` patterns define names for the rest of the expansion only: run as a scoped block
+        return self.run_block(block, dict(env), scoped_env=env)
+
+    def apply_closure(self, c, args):
+        if not (isinstance(c, tuple) and c[0] == "closure"):
+            raise Unsupported("closure expected")
+        _, pats, body, cenv = c
+        env = dict(cenv)
+        if len(pats) != len(args):
+            raise Unsupported("closure arity")
+        for p_, a in zip(pats, args):
+            self.bind_pat(p_, a, env)
+        return self.eval(body, env)
 
     def scalar(self, v):
         v = self.deref_all(v)
@@ -1031,14 +1234,46 @@ class Exec:
         name = p[-1]
         if len(p) == 1 and name in env:
             return env[name].v
+        if len(p) == 1 and isinstance(self.generics.get(name), int):
+            return BV(64, const=self.generics[name])
         if name in ("true", "false") and len(p) == 1:
             return BV(1, const=int(name == "true"))
         if len(p) == 2 and p[0] in WIDTH and p[1] in ("MAX", "BITS", "MIN"):
             w = WIDTH[p[0]]
             return BV(w if p[1] != "BITS" else 32, const={"MAX": (1 << w) - 1, "BITS": w, "MIN": 0}[p[1]])
+        if len(p) >= 2:
+            owner = p[-2]
+            if owner == "Self":
+                owner = self.self_ty
+            owner = self.generics.get(owner, owner)
+            key = f"{owner}::{name}"
+            if key not in self.consts:
+                cands = [k for k in self.consts if k.endswith("::" + name) and k.split("::")[0] in TRAITS]
+                key = cands[0] if cands else None
+            if key:
+                saved = self.self_ty
+                if isinstance(owner, str):
+                    self.self_ty = owner
+                try:
+                    return self.const_value(key)
+                finally:
+                    self.self_ty = saved
         if name in self.consts:
+            return self.const_value(name)
+        raise Unsupported(f"unknown name {'::'.join(p)}")
+
+    def const_value(self, name):
+        key = (name, self.self_ty if "::" in name else None)
+        if key in self.const_cache:
+            return self.const_cache[key]
+        v = self.const_value_(name)
+        self.const_cache[key] = v
+        return v
+
+    def const_value_(self, name):
+        if True:
             t, init = self.consts[name]
-            tbl = self.table_for(name, t, init)
+            tbl = self.table_for(name, t, init) if "::" not in name else None
             if tbl is not None:
                 return tbl
             t = self.resolve(t)
@@ -1092,10 +1327,23 @@ class Exec:
                 if hi > len(base.slots):
                     raise Unsupported("slice out of range")
                 return Arr(base.slots[lo:hi])
+            if isinstance(base, Table) and len(base.dims) == 1:
+                lo = idx[1] or 0
+                hi = idx[2] if idx[2] is not None else base.dims[0]
+                return Table(base.lean_name, [hi - lo], base.w, base.flat, base.off + lo)
             raise Unsupported("range index on non-array")
         idx = self.scalar(idx)
         if isinstance(base, Arr):
             if idx.const is None:
+                elems = [self.deref_all(sl.v) for sl in base.slots]
+                if all(isinstance(x, BV) and x.const is not None for x in elems) and len({x.w for x in elems}) == 1:
+                    vals = tuple(x.const for x in elems)
+                    if vals not in self.aux:
+                        self.aux[vals] = f"{self.lean_name}_tbl{len(self.aux)}"
+                    return BV(elems[0].w, f"BC.Gen.tblAt {self.aux[vals]} {idx.par()}.toNat {elems[0].w}", atom=False)
+                if all(isinstance(x, BV) for x in elems) and len({x.w for x in elems}) == 1:
+                    lst = ", ".join(x.lean() for x in elems)
+                    return BV(elems[0].w, f"BC.Gen.selAt [{lst}] {idx.par()}.toNat", atom=False)
                 raise Unsupported("data-dependent index into a local array")
             if idx.const >= len(base.slots):
                 raise Unsupported(f"index {idx.const} out of bounds ({len(base.slots)})")
@@ -1133,7 +1381,10 @@ class Exec:
             s = env[e[1][0]]
             return s
         if k == "deref":
-            v = self.lvalue_value(e[1], env)
+            try:
+                v = self.lvalue_value(e[1], env)
+            except Unsupported:
+                v = self.eval(e[1], env)
             if isinstance(v, Ref):
                 return v.slot
             raise Unsupported("deref of non-reference lvalue")
@@ -1224,7 +1475,7 @@ class Exec:
     def mcall(self, e, env, want):
         recv_e, name, args = e[1], e[2], e[3]
         if name in ("iter", "into_iter", "iter_mut", "enumerate", "rev", "step_by", "zip", "chunks_exact", "chunks_exact_mut",
-                    "chunks", "skip", "take", "copied", "cloned"):
+                    "chunks", "skip", "take", "copied", "cloned", "map", "fold", "for_each"):
             return self.iterator(e, env)
         recv = self.eval(recv_e, env, want)
         rv = self.deref_all(recv)
@@ -1232,9 +1483,11 @@ class Exec:
             if name == "get_in":
                 return Ref(Slot(rv.inp))
             if name == "get_out":
-                return Ref(Slot(rv.out))
+                return Ref(rv.out_slot)
             if name == "reborrow":
                 return rv
+            if name == "clone_in":
+                return self.copy(rv.inp)
             raise Unsupported(f"InOut method .{name}()")
         if isinstance(rv, Struct):
             key = f"{rv.ty}::{name}"
@@ -1257,6 +1510,10 @@ class Exec:
             b = self.scalar(self.eval(args[0], env, a.w))
             if b.w is None:
                 b = BV(a.w, const=b.const)
+            if a.w is None:
+                a = BV(b.w, const=a.const)
+            if a.w is None:
+                raise Unsupported("wrapping op on untyped literals")
             op = {"wrapping_add": "+", "wrapping_sub": "-", "wrapping_mul": "*"}[name]
             if a.const is not None and b.const is not None:
                 val = {"+": a.const + b.const, "-": a.const - b.const, "*": a.const * b.const}[op] & ((1 << a.w) - 1)
@@ -1338,6 +1595,24 @@ class Exec:
             return ("list", xs[:self.const_of(self.eval(args[0], env))])
         if name in ("copied", "cloned"):
             return ("list", [self.deref_all(x) for x in xs])
+        if name == "map":
+            c = self.eval(args[0], env)
+            return ("list", [self.apply_closure(c, [x]) for x in xs])
+        if name == "for_each":
+            c = self.eval(args[0], env)
+            for x in xs:
+                self.apply_closure(c, [x])
+            return None
+        if name == "fold":
+            acc = self.eval(args[0], env)
+            c = self.eval(args[1], env)
+            for x in xs:
+                if isinstance(acc, BV) and acc.w is None and isinstance(self.deref_all(x), BV):
+                    acc = BV(self.deref_all(x).w, const=acc.const)
+                acc = self.apply_closure(c, [acc, x])
+                if isinstance(acc, BV) and not acc.atom and acc.const is None:
+                    acc = self.bind("acc", acc)
+            return acc
         if name == "zip":
             other = self.eval(args[0], env)
             other = self.deref_all(other)
@@ -1352,11 +1627,14 @@ class Exec:
         f, args = e[1], e[2]
         if f[0] == "k":
             return f[1]
+        if f[0] == "sizeof":
+            return self.eval(f, env)
         if f[0] != "path":
             raise Unsupported("call of a non-path")
         p = f[1]
         name = p[-1]
-        if len(p) >= 2 and p[-2] in WIDTH and name == "from":
+        if len(p) >= 2 and p[-2] in WIDTH and name in ("from", "try_from"):
+            # try_from(..).unwrap(): the value is known to fit at every call site of the crates (C20 site); as a cast
             return self.cast(self.eval(args[0], env), ("name", p[-2], []))
         if len(p) >= 2 and p[-2] in WIDTH and name in ("from_be_bytes", "from_le_bytes", "from_ne_bytes"):
             a = self.deref_all(self.eval(args[0], env))
@@ -1373,6 +1651,8 @@ class Exec:
             if all(b.const is not None for b in bs):
                 return BV(w, const=int.from_bytes(bytes(b.const for b in bs), "big"))
             return BV(w, "(" + " ++ ".join(b.par() for b in bs) + ")", atom=True)
+        if len(p) >= 2 and p[-2] in WIDTH and name in ("wrapping_add", "wrapping_sub", "wrapping_mul", "rotate_left", "rotate_right", "swap_bytes"):
+            return self.mcall(("mcall", args[0], name, args[1:]), env, WIDTH[p[-2]])
         if name == "swap" and len(p) >= 2 and p[-2] == "mem":
             a = self.eval(args[0], env)
             b = self.eval(args[1], env)
@@ -1380,6 +1660,8 @@ class Exec:
                 a.slot.v, b.slot.v = b.slot.v, a.slot.v
                 return None
             raise Unsupported("mem::swap on non-references")
+        if name == "Wrapping" and len(args) == 1:
+            return self.eval(args[0], env, want)
         if name in ("Default", "default") or (len(p) >= 2 and p[-1] == "default"):
             raise Unsupported("Default::default() (unknown type)")
         if len(p) >= 2:
@@ -1389,6 +1671,17 @@ class Exec:
             owner = self.generics.get(owner, owner)
             if isinstance(owner, str) and f"{owner}::{name}" in self.fns:
                 name = f"{owner}::{name}"
+            elif isinstance(owner, str):
+                cands = [k for k in self.fns if k.endswith("::" + name) and k.split("::")[0] in TRAITS]
+                if cands:
+                    fn = self.fns[cands[0]]
+                    saved = self.self_ty
+                    self.self_ty = owner
+                    try:
+                        actual = [self.eval(a, env) for a in args]
+                        return self.inline(fn, actual, keep_self=True)
+                    finally:
+                        self.self_ty = saved
         if name in self.fns:
             fn = self.fns[name]
             actual = []
@@ -1399,12 +1692,30 @@ class Exec:
             return self.inline(fn, actual)
         raise Unsupported(f"call to unknown function {'::'.join(p)}")
 
-    def inline(self, fn, actual):
+    def inline(self, fn, actual, keep_self=False):
+        unbound = [g for g in getattr(fn, "cgen", []) if not isinstance(self.generics.get(g), int)]
+        if unbound:
+            if len(unbound) > 1:
+                raise Unsupported(f"{fn.name}: several const generics to infer")
+            g = unbound[0]
+            last = None
+            for cand in range(1, 65):
+                self.generics[g] = cand
+                mark = (len(self.lines), dict(self.used))
+                try:
+                    return self.inline(fn, actual, keep_self)
+                except AssertFail as e:
+                    last = e
+                    del self.lines[mark[0]:]
+                    self.used = mark[1]
+                finally:
+                    del self.generics[g]
+            raise Unsupported(f"{fn.name}: cannot infer const generic {g}: {last}")
         if self.depth > 40:
             raise Unsupported("inlining too deep")
         env = {}
         saved_self = self.self_ty
-        if getattr(fn, "owner", None):
+        if getattr(fn, "owner", None) and not keep_self and fn.owner not in TRAITS:
             self.self_ty = self.generics.get(fn.owner, fn.owner) if not isinstance(self.generics.get(fn.owner), tuple) else fn.owner
         for (pat, t), v in zip(fn.params, actual):
             if t[0] == "self":
@@ -1417,6 +1728,10 @@ class Exec:
                     v = BV(WIDTH[rt[1]], const=v.const)
                 elif v.w != WIDTH[rt[1]]:
                     raise Unsupported(f"argument width {v.w} for parameter of type {rt[1]} in {fn.name}")
+            if rt[0] == "ref" and isinstance(v, Ref):
+                inner = self.resolve(rt[2])
+                if inner[0] == "name" and inner[1] in WIDTH and isinstance(v.slot.v, BV) and v.slot.v.w is None:
+                    v.slot.v = BV(WIDTH[inner[1]], const=v.slot.v.const)
             if rt[0] != "ref" and not isinstance(v, Ref):
                 v = self.copy(v)  # by-value arrays are copied
             if rt[0] != "ref" and isinstance(v, Ref):
@@ -1556,6 +1871,10 @@ class Exec:
                 v = self.bind(hint, v) if not v.atom else v
             elif isinstance(v, Arr):
                 v = self.copy(v)
+                if isinstance(cur, Arr) and len(cur.slots) == len(v.slots):
+                    for d, s_ in zip(cur.slots, v.slots):
+                        d.v = s_.v
+                    return
             elif isinstance(v, Ref):
                 pass
             slot.v = v
@@ -1611,7 +1930,7 @@ def flatten(v, out, ex):
         raise Unsupported(f"cannot return {type(v).__name__}")
 
 
-def translate(crate, path, fname, lean_name, lens=None, cfg=(), extra_files=(), doc="", packed=(), outs_only=(), pack_out=0, generics=None, self_ty=None):
+def translate(crate, path, fname, lean_name, lens=None, cfg=(), extra_files=(), doc="", packed=(), outs_only=(), pack_out=0, generics=None, self_ty=None, fields=None):
     """returns (lean text, signature description) or raises Unsupported"""
     fns, consts, aliases, errs = find_functions(os.path.join(REPO, path), cfg)
     # siblings: every other source file of the crate (the file of the function itself takes precedence)
@@ -1636,6 +1955,8 @@ def translate(crate, path, fname, lean_name, lens=None, cfg=(), extra_files=(), 
     fn = fns[fname]
     ex = Exec(fns, consts, aliases, lens, crate=crate.replace("-", "_"), packed={k: True for k in packed}, outs_only=outs_only)
     ex.cfg = cfg
+    ex.lean_name = lean_name
+    ex.field_consts = dict(fields or {})
     ex.generics = dict(generics or {})
     ex.self_ty = self_ty or getattr(fn, "owner", None)
     inputs, env, muts = [], {}, []
@@ -1673,7 +1994,12 @@ def translate(crate, path, fname, lean_name, lens=None, cfg=(), extra_files=(), 
     rty = " × ".join(f"BitVec {o.w}" for o in outs)
     res = "(" + ", ".join(o.lean() for o in outs) + ")" if len(outs) > 1 else outs[0].lean()
     cfgtxt = f" under cfg {list(cfg)}" if cfg else ""
-    text = f"/-- `{path}`: `fn {fname}`{cfgtxt}{doc} -/\ndef {lean_name} {args} : {rty} :=\n" + "\n".join(ex.lines) + ("\n" if ex.lines else "") + f"  {res}\n"
+    auxtxt = ""
+    for vals, nm in ex.aux.items():
+        rows = [", ".join(f"{v:#x}" for v in vals[i:i + 16]) for i in range(0, len(vals), 16)]
+        auxtxt += (f"/-- a constant table computed by the source (const fn / associated const) and read with a data-dependent index in `{fname}` -/\n"
+                   f"def {nm} : Array Nat := #[\n  " + ",\n  ".join(rows) + "]\n\n")
+    text = auxtxt + f"/-- `{path}`: `fn {fname}`{cfgtxt}{doc} -/\ndef {lean_name} {args} : {rty} :=\n" + "\n".join(ex.lines) + ("\n" if ex.lines else "") + f"  {res}\n"
     return text, {"inputs": inputs, "outputs": [o.w for o in outs]}
 
 
